@@ -192,7 +192,45 @@ def rule_d(R, ctx):
         R.ob("C05.d", sp, site, ok, "guards: %s" % [l.desc for l in g], cs.loc())
 
 
+def overwritten_before(fn, v, test_bb, field_suffix, owner_root):
+    """sites that overwrite `<owner>.<field>` (plain write, Option::replace/insert/take on it) in a block that dominates test_bb."""
+    cfg = fn.cfg()
+    out = []
+    for i, j, s in fn.field_writes(field_suffix):
+        dst = s["dst"]
+        base = simp_deep(v.terms.place({"l": dst["l"], "p": dst["p"][:-1]} if len(dst["p"]) > 1 else dst["l"]))
+        if root_name(base) == owner_root and not term_has_field(base, "Item.left") and not term_has_field(base, "Item.right") \
+                and i != test_bb and cfg.dominates(i, test_bb):
+            out.append("%s:%s" % (fn.file, s["line"]))
+    for cs in fn.calls_to("re:^std::option::Option::(replace|insert|get_or_insert|get_or_insert_with|take)$", "re:^std::mem::(replace|take|swap)$"):
+        a0 = simp_deep(v.arg(cs, 0))
+        fp = field_path(a0)
+        if fp[-1:] == [field_suffix.rsplit(".", 1)[-1]] and root_name(a0) == owner_root and len(fp) == 1 and cs.bb != test_bb and cfg.dominates(cs.bb, test_bb):
+            out.append(cs.loc())
+    return out
+
+
+def rule_e(R, ctx):
+    Y = ctx.yrs
+    R.rule("C05.e", "R-ORDER the 'is this the right-most entry' tests read the neighbour pointer before it is overwritten: in "
+                    "ItemPtr::splice no write / Option::replace of self.right dominates the `item.right.is_none()` test that guards the "
+                    "map pointer fix-up (otherwise the test is vacuously false and Branch.map[key] keeps pointing at the left half); "
+                    "in integrate_item the `item.right` test guarding parent.map.insert follows the final assignment of item.right")
+    sp = Y.fn("yrs::block::ItemPtr::splice")
+    sv = FnView(sp)
+    tests = [l for l in sv.lits if lit_call(l, "std::option::Option::is_none") and term_has_field(l.term, "Item.right")]
+    R.floor("C05.e", "item.right.is_none() test in splice", len(tests), 1)
+    for k, l in enumerate(tests[:1]):
+        # block where is_none is called
+        call_bb = simp(l.term)[3]
+        owner = root_name(simp(l.term)[2][0])
+        ow = overwritten_before(sp, sv, call_bb, "Item.right", owner)
+        R.ob("C05.e", sp, "right-read-before-write#%d" % k, not ow,
+             "self.right is overwritten at %s before the right-most test reads it" % ow if ow else "the test reads the old right neighbour")
+
+
 def check(ctx, R):
+    R.run("C05.e", rule_e, ctx)
     R.run("C05.a", rule_a, ctx)
     R.run("C05.b", rule_b, ctx)
     R.run("C05.c", rule_c, ctx)
